@@ -315,6 +315,22 @@ func kfReproC13(rep *Report) {
 		return false, ""
 	})
 	rep.Repros["C13-5"] = Repro{Fails: f, Detail: d}
+	// C13-9: a named []byte value was not a driver.Value: the tester found a row unequal to itself
+	f, d = kfTry(func() (bool, string) {
+		if regErr["blob"] != nil {
+			return false, ""
+		}
+		row := &kfBlobRow{Id: 1, Data: kfBlob{1, 2, 3}}
+		tester, err := schema.MakeTester("kfblob", sqlgen.Filter{"id": int64(1), "data": row.Data})
+		if err != nil {
+			return true, "MakeTester with the row's own Blob value: " + firstN(err.Error(), 120)
+		}
+		if !tester.Test(row) {
+			return true, "a filter made from the row's own column values (data: Blob{1,2,3}) does not match the row"
+		}
+		return false, ""
+	})
+	rep.Repros["C13-9"] = Repro{Fails: f, Detail: d}
 	// C13-6: a []byte field tagged json is written as JSON and read back as the JSON text
 	f, d = kfTry(func() (bool, string) {
 		if regErr["json"] != nil {
